@@ -297,6 +297,32 @@ func c07TypeChecks(un *U, t *TS, ty, ty2 cty.Type, cn, cnNO string) {
 		if !t.HasOpt() && !s1.Equals(ty) {
 			fail("strip", "stripping changed a type without optional annotations")
 		}
+		if t.HasOpt() {
+			// the stripped type is derived from the annotated one (it may share storage with it) and
+			// differs from it in its optional-attribute sets: equality must tell them apart, in both
+			// directions, also inside enclosing types built around the two
+			if s1.Equals(ty) || ty.Equals(s1) {
+				fail("strip-equals-annotated", fmt.Sprintf("%#v Equals its own stripped form %#v (%v / %v)", ty, s1, s1.Equals(ty), ty.Equals(s1)))
+			}
+			for _, wrap := range []func(cty.Type) cty.Type{
+				func(x cty.Type) cty.Type { return cty.List(x) },
+				func(x cty.Type) cty.Type { return cty.Map(x) },
+				func(x cty.Type) cty.Type { return cty.Tuple([]cty.Type{cty.String, x}) },
+				func(x cty.Type) cty.Type { return cty.Object(map[string]cty.Type{"w": x}) },
+			} {
+				wa, ws := wrap(ty), wrap(s1)
+				if wa.Equals(ws) || ws.Equals(wa) {
+					fail("strip-equals-annotated", fmt.Sprintf("%#v Equals %#v, which differs in optional-attribute sets", wa, ws))
+				}
+				if ws2 := wa.WithoutOptionalAttributesDeep(); !ws2.Equals(ws) || !ws.Equals(ws2) {
+					fail("strip", fmt.Sprintf("stripping %#v gives %#v, expected %#v", wa, ws2, ws))
+				}
+			}
+			// and the annotated type is unchanged by having been stripped
+			if got := tsOf(ty).Canon(); got != cn {
+				fail("strip-changed-receiver", fmt.Sprintf("after WithoutOptionalAttributesDeep the receiver reads %s, it was %s", got, cn))
+			}
+		}
 	})
 	guard("json", func() {
 		b, err := ty.MarshalJSON()
